@@ -216,18 +216,22 @@ func (o *oracle) expect(f []string) string {
 // the real code
 
 type batchRec struct {
-	bm   kvstore.BatchedMutations
-	bufs [][]byte
+	bm    kvstore.BatchedMutations
+	bufs  [][]byte
+	stack string
 }
 
 type world struct {
 	views   map[int]kvstore.KVStore
+	stacks  map[int]string // wrapper stack of every view handle, outermost first ("" = bare mapdb, "fd" = flushkv∘debug∘mapdb)
 	batches map[int]*batchRec
 	cbCalls int
+	counts  map[string]int
 }
 
 func newWorld() *world {
-	return &world{views: map[int]kvstore.KVStore{0: mapdb.NewMapDB()}, batches: map[int]*batchRec{}}
+	return &world{views: map[int]kvstore.KVStore{0: mapdb.NewMapDB()}, stacks: map[int]string{0: ""}, batches: map[int]*batchRec{},
+		counts: map[string]int{}}
 }
 
 func scribble(b []byte) {
@@ -280,6 +284,7 @@ func (w *world) exec(f []string) string {
 			return errAns(err)
 		}
 		w.views[num(1)] = nv
+		w.stacks[num(1)] = w.stacks[num(2)]
 
 		return "ok"
 	case "wrap":
@@ -287,6 +292,7 @@ func (w *world) exec(f []string) string {
 		if !ok {
 			return "bad-handle"
 		}
+		w.stacks[num(1)] = f[3] + w.stacks[num(2)]
 		if f[3] == "f" {
 			w.views[num(1)] = flushkv.New(p)
 		} else {
@@ -311,7 +317,7 @@ func (w *world) exec(f []string) string {
 		if err != nil {
 			return errAns(err)
 		}
-		w.batches[num(1)] = &batchRec{bm: bm}
+		w.batches[num(1)] = &batchRec{bm: bm, stack: w.stacks[num(2)]}
 
 		return "ok"
 	case "bset", "bdel", "commit", "commitf", "cancel":
@@ -348,6 +354,9 @@ func (w *world) exec(f []string) string {
 			// the batch is finished: mutating the caller's buffers after Commit returned must not matter
 			for _, x := range b.bufs {
 				scribble(x)
+			}
+			if err == nil && len(b.bufs) > 0 {
+				w.counts["commit-then-scribble:stack="+b.stack+"."]++
 			}
 			delete(w.batches, num(1))
 
@@ -655,7 +664,7 @@ func genCase(rng *hx.Rng, n int) []string {
 				g.pool = append(g.pool, g.realm[b]+string(hx.UnHex(key)))
 			case y < 85:
 				ops = append(ops, fmt.Sprintf("bdel %d %s", b, key))
-			case y < 105:
+			case y < 95:
 				ops = append(ops, fmt.Sprintf("commit %d", b))
 			case y < 117:
 				ops = append(ops, fmt.Sprintf("commitf %d", b))
@@ -730,6 +739,9 @@ func runCase(r *hx.Run, sub uint64, ops []string) {
 		r.Count("case:saw-closed")
 	}
 	r.CountN("debug-callbacks", w.cbCalls)
+	for k, n := range w.counts {
+		r.CountN(k, n)
+	}
 	if len(realms) >= 2 && bigIter >= 1 && mutations >= 3 {
 		h := sha256.Sum256([]byte(strings.Join(ops, "\n")))
 		r.Nontrivial(string(h[:8]))
@@ -759,8 +771,37 @@ var corpus = [][]string{
 		"iter 0 - fwd 0", "iterc 2 - fwd 1", "iter 0 - fwd 0", "iterc 0 - fwd 0"},
 }
 
+// probeAliasing records (in the evidence, not as a verdict: the statement does not speak about these buffers) which of the
+// caller's buffers the store keeps by reference: the realm passed to WithRealm, and a value passed to a batch's Set until
+// the batch is committed.
+func probeAliasing(r *hx.Run) {
+	root := mapdb.NewMapDB()
+	realm := []byte{0x01}
+	v, _ := root.WithRealm(realm)
+	realm[0] = 0x02
+	r.Extra["observation_WithRealm_keeps_callers_realm_slice"] = v.Realm()[0] == 0x02
+	realm2 := []byte{0x03}
+	v2, _ := v.WithExtendedRealm(realm2)
+	realm2[0] = 0x04
+	r.Extra["observation_WithExtendedRealm_keeps_callers_realm_slice"] = v2.Realm()[len(v2.Realm())-1] == 0x04
+	b, _ := root.Batched()
+	val := []byte{0x07}
+	_ = b.Set([]byte{0x00}, val)
+	val[0] = 0x08
+	_ = b.Commit()
+	got, _ := root.Get([]byte{0x00})
+	r.Extra["observation_batch_Set_keeps_callers_value_slice_until_Commit"] = len(got) == 1 && got[0] == 0x08
+	val[0] = 0x09 // after Commit returned: this one IS covered by the statement (and by the histories)
+	got, _ = root.Get([]byte{0x00})
+	if len(got) != 1 || got[0] != 0x08 {
+		r.Fail("ordered-map-contract", "mutating a batch Set buffer after Commit returned changed stored data",
+			map[string]string{"op": "commit", "want": "val", "got": "val", "probe": "buffer-after-commit"})
+	}
+}
+
 func main() {
 	r := hx.Start()
+	probeAliasing(r)
 	r.Rule = "random histories (40 ops) over view trees of depth <= 3 and wrapper stacks of depth <= 3, keys/prefixes/realms over " +
 		"{00,01,7f,ff} of length 0..3, values of length 0..4, both directions + default; non-trivial = at least two distinct " +
 		"realms created, one iteration reporting >= 2 entries and three successful mutations; distinct by sha256 of the op lines"
